@@ -1563,9 +1563,12 @@ class LangServer:
             config_path = os.path.join(self.root_path, f)
             break
 
+        # Options are only updated if the whole file can be applied
+        cli_options = dict(self.__dict__)
         try:
             with open(config_path) as jsonfile:
                 config_dict = json5.load(jsonfile)
+                self._check_config_types(config_dict)
 
                 # Include and Exclude directories
                 self._load_config_file_dirs(config_dict)
@@ -1586,10 +1589,35 @@ class LangServer:
         except FileNotFoundError:
             self.post_message(f"Configuration file '{self.config}' not found")
 
-        # Erroneous json file syntax
-        except ValueError as e:
+        # Erroneous json file syntax, unreadable file or invalid option values
+        except (ValueError, OSError) as e:
+            self.__dict__.update(cli_options)
             msg = f'Error: "{e}" while reading "{self.config}" Configuration file'
             self.post_message(msg)
+
+    def _check_config_types(self, config_dict) -> None:
+        """Raise ValueError unless the configuration is an object whose known
+        options have values of the same type as their command line counterpart"""
+        if not isinstance(config_dict, dict):
+            raise ValueError("Configuration must be a JSON object")
+        for key, value in config_dict.items():
+            current = getattr(self, key, None)
+            if isinstance(current, bool):
+                valid = isinstance(value, bool)
+            elif isinstance(current, int):
+                valid = isinstance(value, int) and not isinstance(value, bool)
+            elif isinstance(current, str):
+                valid = isinstance(value, str)
+            elif isinstance(current, (set, list)):
+                valid = isinstance(value, list) and all(
+                    isinstance(i, str) for i in value
+                )
+            elif isinstance(current, dict):  # pp_defs: mapping or list of names
+                valid = isinstance(value, (dict, list))
+            else:
+                valid = True
+            if not valid:
+                raise ValueError(f"Invalid value {value!r} for option '{key}'")
 
     def _load_config_file_dirs(self, config_dict: dict) -> None:
         self.excl_paths = set(config_dict.get("excl_paths", self.excl_paths))
